@@ -933,7 +933,10 @@ func (vc *VC) box(t types.Type, term string) string {
 	e := vc.enc
 	k := typeKey(t)
 	s := e.sortOf(t)
-	e.addPre("box:"+k, fmt.Sprintf("(declare-fun box.%s (%s) Int)\n(declare-fun unbox.%s (Int) %s)\n(assert (forall ((x %s)) (! (= (unbox.%s (box.%s x)) x) :pattern ((box.%s x)))))", k, s, k, s, s, k, k, k))
+	// one prelude entry per symbol: entries are included by the symbol they declare
+	e.addPre("box."+k, fmt.Sprintf("(declare-fun box.%s (%s) Int)", k, s))
+	e.addPre("unbox."+k, fmt.Sprintf("(declare-fun unbox.%s (Int) %s)", k, s))
+	e.addPre("box."+k+".ax", fmt.Sprintf("(assert (forall ((x %s)) (! (= (unbox.%s (box.%s x)) x) :pattern ((box.%s x)))))", s, k, k, k))
 	return fmt.Sprintf("(box.%s %s)", k, term)
 }
 
